@@ -9,8 +9,12 @@ No verdict is computed in Python.
 """
 import hashlib
 import json
+import os
+from concurrent.futures import ThreadPoolExecutor
 
 import pipeline as pl
+
+BFS_WORKERS = int(os.environ.get('VERIF_TLC_WORKERS', '6'))
 
 ALL_CODECS = ['ber', 'der', 'per', 'uper', 'oer', 'jer', 'xer', 'gser']
 
@@ -23,20 +27,28 @@ def gen_cfg(spec, inv, max_depth, rich, tagdefs, extra=''):
                 spec, max_depth, 'TRUE' if rich else 'FALSE', ', '.join('"%s"' % t for t in tagdefs), extra, inv))
 
 
-def generate(run, module, spec, inv, plan, prefix, extra=''):
-    """plan: list of ('bfs', depth, rich, tagdefs) / ('sim', 'num=..', depth, rich, tagdefs)."""
-    cases = []
-    for n, step in enumerate(plan):
+def generate(run, module, spec, inv, plan, prefix, extra='', also=None):
+    """plan: list of ('bfs', depth, rich, tagdefs) / ('sim', 'num=..', depth, rich, tagdefs).
+    The TLC runs of a plan are independent and run side by side; `also` = extra thunks run with them."""
+    def one(n_step):
+        n, step = n_step
         if step[0] == 'bfs':
             _, d, rich, tds = step
             out, _ = pl.tlc_generate(run, module, gen_cfg(spec, inv, d, rich, tds, extra), '%s%d.ndjson' % (prefix, n),
-                                     workers=8, what='%s BFS depth<=%d rich=%s tagdefs=%s' % (module, d, rich, tds))
+                                     workers=BFS_WORKERS, what='%s BFS depth<=%d rich=%s tagdefs=%s' % (module, d, rich, tds))
         else:
             _, num, d, rich, tds = step
             out, _ = pl.tlc_generate(run, module, gen_cfg(spec, inv, d, rich, tds, extra), '%s%d.ndjson' % (prefix, n),
                                      workers=1, simulate=num, depth=d + 1,
                                      what='%s simulate %s depth %d' % (module, num, d))
-        cases += pl.dedup_cases(out, '%s%d' % (prefix, n))
+        return pl.dedup_cases(out, '%s%d' % (prefix, n))
+    cases = []
+    with ThreadPoolExecutor(max_workers=4) as ex:
+        extra_f = [ex.submit(f) for f in (also or [])]
+        for part in ex.map(one, list(enumerate(plan))):
+            cases += part
+        for f in extra_f:
+            f.result()
     seen, uniq = set(), []
     for c in cases:
         h = hashlib.sha1(json.dumps([c['env'], c['vals']], sort_keys=True).encode()).hexdigest()
@@ -68,7 +80,7 @@ def c11(tier, seed):
     run = pl.Run('C11', tier, seed)
     try:
         if tier == 'quick':
-            plan = [('bfs', 1, False, ['A']), ('sim', 'num=12', 4, False, ['E'])]
+            plan = [('bfs', 1, False, ['A']), ('sim', 'num=4', 4, False, ['E'])]
         else:
             plan = [('bfs', 2, False, ['A', 'E']), ('bfs', 1, True, ['I']), ('sim', 'num=400', 6, True, ['E', 'I', 'A'])]
         cases = generate(run, 'ConGen', 'ConSpec', 'ConEmit', plan, 'g') + witness_cases('C11')
@@ -132,20 +144,26 @@ KIND_NAMES = {'type': 'WrongPyType', 'alt': 'UnknownAlternative', 'enum': 'Unkno
 def c12(tier, seed):
     run = pl.Run('C12', tier, seed)
     try:
-        stages_off = '  Stages = FALSE\n'
+        all_taus = '{"None", "bool", "int", "float", "str", "bytes", "list", "dict", "tuple0", "tuple3", "tuple2s", "tuple2b"}'
         if tier == 'quick':
-            plan = [('bfs', 1, False, ['A']), ('sim', 'num=10', 4, False, ['E'])]
+            plan = [('bfs', 1, False, ['A']), ('sim', 'num=3', 4, False, ['E'])]
             mc = (0, False)
+            taus = '{"None", "int", "float", "str", "bytes", "list", "dict", "tuple2b"}'
         else:
             plan = [('bfs', 2, False, ['A', 'E']), ('bfs', 1, True, ['I']), ('sim', 'num=300', 6, True, ['E', 'I', 'A'])]
             mc = (1, False)
+            taus = all_taus
+
         # (M) the transition system itself: every reachable corrupt state is applicable and its expected
         # path leads to the corrupted component (small constants, exhaustive)
-        cfg = gen_cfg('CorSpec', 'CorruptStateOk', mc[0], mc[1], ['A'], '  Stages = TRUE\n')
-        _, res = pl.tlc_generate(run, 'Corrupt', cfg, 'mc.ndjson', workers=8,
-                                 what='Corrupt model check (PickValue, CorruptAt) depth<=%d' % mc[0])
-        run.notes['model_check_states'] = res['distinct']
-        cases = generate(run, 'Corrupt', 'CorSpec', 'CorEmit', plan, 'k', extra=stages_off) + witness_cases('C12')
+        def model_check():
+            cfg = gen_cfg('CorSpec', 'CorruptStateOk', mc[0], mc[1], ['A'], '  Stages = TRUE\n  Taus = %s\n' % all_taus)
+            _, res = pl.tlc_generate(run, 'Corrupt', cfg, 'mc.ndjson', workers=BFS_WORKERS,
+                                     what='Corrupt model check (PickValue, CorruptAt) depth<=%d' % mc[0])
+            run.notes['model_check_states'] = res['distinct']
+
+        cases = generate(run, 'Corrupt', 'CorSpec', 'CorEmit', plan, 'k',
+                         extra='  Stages = FALSE\n  Taus = %s\n' % taus, also=[model_check]) + witness_cases('C12')
         for c in cases:
             for k in c['cors']:
                 k.pop('exp', None)      # the expectation is recomputed by the trace specification
@@ -164,10 +182,9 @@ def c12(tier, seed):
                     continue
                 k = line['cors'][o['ci'] - 1]
                 kn = KIND_NAMES[k['kind']]
-                kinds[kn] = kinds.get(kn, 0) + len(o['codecs'])
+                kinds[kn] = kinds.get(kn, 0) + o['w']
                 posk = '.'.join(s['n'] if s['s'] != 'i' else '*' for s in k['pos'])
-                for cd in o['codecs']:
-                    run.signatures.add((th, posk, k['kind'], k['tau'], k['member'], k['nb'], cd))
+                run.signatures.add((th, posk, k['kind'], k['tau'], k['member'], k['nb']))
             if len(run.samples) < 5 and line['obs']:
                 o = line['obs'][len(line['obs']) // 2]
                 k = line['cors'][o['ci'] - 1]
@@ -188,7 +205,7 @@ def c12(tier, seed):
             'cases are Corrupt states (TypeGen productions over leaf types of every kind, BFS + simulation, seed %d); per case '
             'every node of every well-formed boundary value x every applicable corruption kind / rejected Python type, '
             'de-duplicated per (type position, kind); an observation is one encode(check_types, check_constraints) per '
-            '(corruption, codec, numeric_enums); distinct non-trivial = distinct (type, type position, kind, tau, codec)' % seed))
+            '(corruption, codec, numeric_enums); distinct non-trivial = distinct (type, type position, kind, tau / member / bound)' % seed))
     except pl.Machinery as e:
         print('MACHINERY FAILURE C12: %s' % e)
         return 2
